@@ -33,13 +33,31 @@ impl<'a> Serve for Sv<'a> {
 fn k5_serve_as_stub_passes_through() {
     let seen = Cell::new((0u64, 0u32));
     let calls = Cell::new(0u32);
-    let s = Sv { fail: kani::any(), val: kani::any(), seen: &seen, calls: &calls };
+    let s = Sv {
+        fail: kani::any(),
+        val: kani::any(),
+        seen: &seen,
+        calls: &calls,
+    };
     let (f, v) = (s.fail, s.val);
     let m: u64 = kani::any();
     let req: u32 = kani::any();
-    let mut ctx = context::Context { deadline: any_instant(), trace_context: Default::default() };
+    let mut ctx = context::Context {
+        deadline: any_instant(),
+        trace_context: Default::default(),
+    };
     ctx.trace_context.span_id = m.into();
     let out = run(Stub::call(&s, ctx, req));
-    assert!(calls.get() == 1 && seen.get() == (m, req), "C20: served exactly once with the caller's context and request");
-    assert!(match out { Ok(x) => !f && x == v, Err(RpcError::Server(_)) => f, Err(_) => false }, "C20: result passes through; ServerError is wrapped as RpcError::Server");
+    assert!(
+        calls.get() == 1 && seen.get() == (m, req),
+        "C20: served exactly once with the caller's context and request"
+    );
+    assert!(
+        match out {
+            Ok(x) => !f && x == v,
+            Err(RpcError::Server(_)) => f,
+            Err(_) => false,
+        },
+        "C20: result passes through; ServerError is wrapped as RpcError::Server"
+    );
 }
